@@ -407,8 +407,15 @@ def _judge_alone(out, comp, ins, rng, eps, tag):
 @st.composite
 def bespoke_cfg(draw):
     which = draw(st.sampled_from(["taper", "rotate_norx", "rotate", "monotonic", "energy", "atmos", "reynolds", "unification",
-                                  "join", "mux_demux", "failure_exact", "multicd", "spar_within_wing", "fuel_vol_delta"]))
+                                  "join", "mux_demux", "failure_exact", "multicd", "spar_within_wing", "fuel_vol_delta", "failure_ks"]))
     d = dict(which=which, seed=draw(st.integers(0, 10 ** 6)), eps=draw(st.sampled_from([0.0, 1e-3, 0.03])))
+    if which == "failure_ks":
+        # stress levels from far below to far above the allowable (the aggregate and its Jacobian must not overflow)
+        d["ne"] = draw(st.integers(1, 40))
+        d["level"] = draw(S.logfl(3.0, 12.0, 1e8))
+        d["spread"] = draw(S.fl(0.0, 1.0, 0.5))
+        d["rho"] = draw(st.sampled_from([100.0, 100.0, 1000.0, 10.0, 5000.0]))
+        d["model"] = draw(st.sampled_from(["tube", "wingbox"]))
     if which in ("taper", "rotate", "rotate_norx", "monotonic", "energy", "failure_exact", "spar_within_wing", "fuel_vol_delta"):
         d["mesh"] = draw(S.mesh(kinds=("left", "full", "asym", "right"), nx=(2, 4), nyh=(2, 4), winglet=True))
         d["ref_axis_pos"] = draw(st.sampled_from(REF_AXIS))
@@ -543,6 +550,16 @@ def bespoke_verdict(desc):
             out.fails.extend(out2.fails)
         out.residuals.update(out2.residuals)
         out.label("fuelvoldelta-symmetric" if sym else "fuelvoldelta-fullspan")
+    elif w == "failure_ks":
+        from openaerostruct.structures.failure_ks import FailureKS
+
+        ne = desc["ne"]
+        ncol = 2 if desc["model"] == "tube" else 4
+        surf = {"name": "w", "mesh": np.zeros((2, ne + 1, 3)), "symmetry": True, "yield": 2e8, "fem_model_type": desc["model"]}
+        vm = desc["level"] * (1.0 - desc["spread"] * rng.uniform(0.0, 1.0, size=(ne, ncol)))
+        out.label("ks-level=%s" % ("<0.1" if desc["level"] < 2e7 else ("~1" if desc["level"] < 2e9 else ">10")) + "*yield")
+        out.label("ks-rho=%g" % desc["rho"])
+        n = _judge_alone(out, FailureKS(surface=surf, rho=desc["rho"]), {"vonmises": vm}, rng, min(eps, 1e-3), "FailureKS")
     elif w == "atmos":
         from openaerostruct.common.atmos_comp import AtmosComp
 
